@@ -401,6 +401,193 @@ theorem lookups_agree (h : Nat → Nat) (hinj : ∀ a b, h a = h b → a = b) (c
       exact ⟨e, (hperm e).1 hm, by simp [hw]⟩
     simp [hk, hw]
 
+/-! ## memory and storage agree, except where a torn storage fault intervened -/
+
+theorem hasDir_saveFile (d : List File) (w i sh w' : Nat) :
+    hasDir (saveFile d w i sh) w' = (hasDir d w' || w' == w) := by
+  by_cases h : w' = w
+  · subst h; simp [hasDir, saveFile]
+  · have h1 : (w' == w) = false := by simp [h]
+    have h2 : (w == w') = false := by simp; exact fun x => h x.symm
+    simp only [hasDir, saveFile, List.any_append, List.any_cons, List.any_nil, h1, h2, Bool.or_false]
+    rw [Bool.eq_iff_iff]
+    simp only [List.any_eq_true, List.mem_filter]
+    constructor
+    · rintro ⟨x, ⟨hx, _⟩, hw⟩; exact ⟨x, hx, hw⟩
+    · rintro ⟨x, hx, hw⟩
+      refine ⟨x, ⟨hx, ?_⟩, hw⟩
+      simp only [beq_iff_eq] at hw
+      simp [hw, h]
+
+theorem hasDir_moveDir_ne (s : St) (w w' : Nat) (h : w' ≠ w) :
+    hasDir (moveDir s w).disk w' = hasDir s.disk w' := by
+  simp only [hasDir, moveDir]
+  rw [Bool.eq_iff_iff]
+  simp only [List.any_eq_true, List.mem_filter, beq_iff_eq]
+  constructor
+  · rintro ⟨x, ⟨hx, _⟩, hw⟩; exact ⟨x, hx, hw⟩
+  · rintro ⟨x, hx, hw⟩; exact ⟨x, ⟨hx, by simp [hw, h]⟩, hw⟩
+
+theorem known_filter_ne (c : Cache) (w w' : Nat) :
+    known (c.filter (·.1 != w)) w' = (known c w' && w' != w) := by
+  simp only [known]
+  rw [Bool.eq_iff_iff]
+  simp only [List.any_eq_true, List.mem_filter, beq_iff_eq, Bool.and_eq_true, bne_iff_ne, ne_eq]
+  constructor
+  · rintro ⟨x, ⟨hx, hn⟩, hw⟩; exact ⟨⟨x, hx, hw⟩, by rw [← hw]; exact hn⟩
+  · rintro ⟨⟨x, hx, hw⟩, hn⟩; exact ⟨x, ⟨hx, by rw [hw]; exact hn⟩, hw⟩
+
+/-- what memory knows is on storage, unless a torn archival moved it away since the last load. -/
+def Sync (t : List Nat) (s : St) : Prop :=
+  ∀ w, known s.cache w = true → w ∉ t → hasDir s.disk w = true
+
+/-- what storage holds is known to memory, unless a failed registration wrote it since the last
+    load. -/
+def SyncR (u : List Nat) (s : St) : Prop :=
+  ∀ w, hasDir s.disk w = true → w ∉ u → known s.cache w = true
+
+theorem sync_restart (t : List Nat) (s : St) : Sync t (restartSt s) ∧ SyncR t (restartSt s) := by
+  constructor <;> intro w h _ <;> have := (restart_exact s w).2 <;> simp_all [restartSt]
+
+theorem sync_step (wallet : Bool) (t : List Nat) (s : St) (op : Op) (h : Sync t s) :
+    Sync (tornStep t op) (step wallet s op).1 := by
+  cases op
+  case restart => exact (sync_restart _ s).1
+  case reg w i sh f =>
+    have hw : ∀ c, (∀ w', known c w' = true → known s.cache w' = true ∨ w' = w) →
+        Sync t { s with disk := saveFile s.disk w i sh, cache := c } := by
+      intro c hc w' hk ht
+      simp only [hasDir_saveFile, Bool.or_eq_true, beq_iff_eq]
+      rcases hc w' hk with hk' | rfl
+      · exact Or.inl (h w' hk' ht)
+      · exact Or.inr rfl
+    have hadd : ∀ w', known (addSigner s.cache w (i, sh)) w' = true → known s.cache w' = true ∨ w' = w := by
+      intro w' hk; rw [known_addSigner] at hk; simpa using hk
+    cases f <;> simp only [step, tornStep]
+    · exact hw _ hadd
+    · exact h
+    · exact hw _ (fun w' hk => Or.inl hk)
+    · exact (sync_restart _ s).1
+    · exact (sync_restart _ _).1
+    · split
+      · exact hw _ (fun w' hk => Or.inl hk)
+      · exact hw _ hadd
+  case arch w f =>
+    have harch : hasDir s.disk w = true →
+        Sync t { moveDir s w with cache := (moveDir s w).cache.filter (·.1 != w) } := by
+      intro _ w' hk ht
+      simp only [known_filter_ne, Bool.and_eq_true, bne_iff_ne, ne_eq] at hk
+      rw [hasDir_moveDir_ne s w w' hk.2]
+      exact h w' (by simpa [moveDir] using hk.1) ht
+    have htorn : Sync (w :: t) (moveDir s w) := by
+      intro w' hk ht
+      simp only [List.mem_cons, not_or] at ht
+      rw [hasDir_moveDir_ne s w w' ht.1]
+      exact h w' (by simpa [moveDir] using hk) ht.2
+    have hweak : Sync (w :: t) s := fun w' hk ht => h w' hk (fun hm => ht (List.mem_cons_of_mem _ hm))
+    simp only [step]
+    split
+    · cases f <;> simp only [tornStep] <;> first | exact h | exact hweak
+    · cases f <;> simp only [tornStep]
+      case failBefore => exact h
+      case failAfter => split; exact htorn; exact hweak
+      case crashBefore => exact (sync_restart _ s).1
+      case crashAfter => exact (sync_restart _ _).1
+      all_goals (split; (rename_i hd; exact harch hd); exact h)
+
+theorem syncR_step (wallet : Bool) (u : List Nat) (s : St) (op : Op) (h : SyncR u s) :
+    SyncR (tornSaveStep u op) (step wallet s op).1 := by
+  cases op
+  case restart => exact (sync_restart _ s).2
+  case reg w i sh f =>
+    have hreg : SyncR u { s with disk := saveFile s.disk w i sh, cache := addSigner s.cache w (i, sh) } := by
+      intro w' hd hu
+      simp only [hasDir_saveFile, Bool.or_eq_true, beq_iff_eq] at hd
+      rw [known_addSigner]
+      rcases hd with hd | rfl
+      · simp [h w' hd hu]
+      · simp
+    have htorn : SyncR (w :: u) { s with disk := saveFile s.disk w i sh } := by
+      intro w' hd hu
+      simp only [List.mem_cons, not_or] at hu
+      simp only [hasDir_saveFile, Bool.or_eq_true, beq_iff_eq] at hd
+      rcases hd with hd | rfl
+      · exact h w' hd hu.2
+      · exact absurd rfl hu.1
+    have hweak : SyncR (w :: u) { s with disk := saveFile s.disk w i sh, cache := addSigner s.cache w (i, sh) } :=
+      fun w' hd hu => hreg w' hd (fun hm => hu (List.mem_cons_of_mem _ hm))
+    cases f <;> simp only [step, tornSaveStep]
+    · exact hreg
+    · exact h
+    · exact htorn
+    · exact (sync_restart _ s).2
+    · exact (sync_restart _ _).2
+    · split
+      · exact htorn
+      · exact hweak
+  case arch w f =>
+    have harch : SyncR u { moveDir s w with cache := (moveDir s w).cache.filter (·.1 != w) } := by
+      intro w' hd hu
+      by_cases hw : w' = w
+      · subst hw; rw [hasDir_moveDir] at hd; exact absurd hd (by simp)
+      · rw [hasDir_moveDir_ne s w w' hw] at hd
+        simp only [known_filter_ne, Bool.and_eq_true, bne_iff_ne, ne_eq]
+        exact ⟨by simpa [moveDir] using h w' hd hu, hw⟩
+    have hmoved : SyncR u (moveDir s w) := by
+      intro w' hd hu
+      by_cases hw : w' = w
+      · subst hw; rw [hasDir_moveDir] at hd; exact absurd hd (by simp)
+      · rw [hasDir_moveDir_ne s w w' hw] at hd
+        simpa [moveDir] using h w' hd hu
+    simp only [step]
+    split
+    · cases f <;> exact h
+    · cases f <;> simp only [tornSaveStep]
+      case failBefore => exact h
+      case failAfter => split; exact hmoved; exact h
+      case crashBefore => exact (sync_restart _ s).2
+      case crashAfter => exact (sync_restart _ _).2
+      all_goals (split; exact harch; exact h)
+
+def tornOf (ops : List Op) : List Nat := ops.foldl tornStep []
+def tornSaveOf (ops : List Op) : List Nat := ops.foldl tornSaveStep []
+
+/-- C38 refinement, for every history of registrations, archivals, storage failures before/after
+    the write, process deaths before/after the write and restarts, for both registries: at every
+    moment the wallets the node has in memory are exactly the wallets that have files in the
+    storage's current directory — "registered and not archived" —, with two precisely delimited
+    exceptions that a restart repairs: a wallet whose `Archive` moved the directory but reported an
+    error is still in memory (`tornOf`), and a wallet whose registration wrote the file but
+    reported an error is not yet in memory (`tornSaveOf`). -/
+theorem memory_refines_storage (wallet : Bool) (ops : List Op) :
+    Sync (tornOf ops) (finalState wallet {} ops) ∧ SyncR (tornSaveOf ops) (finalState wallet {} ops) := by
+  suffices ∀ s t u, Sync t s → SyncR u s →
+      Sync (ops.foldl tornStep t) (finalState wallet s ops) ∧
+      SyncR (ops.foldl tornSaveStep u) (finalState wallet s ops) from
+    this {} [] [] (fun w hk _ => by simp [known] at hk) (fun w hd _ => by simp [hasDir] at hd)
+  induction ops with
+  | nil => intro s t u h1 h2; exact ⟨h1, h2⟩
+  | cons op ops ih =>
+    intro s t u h1 h2
+    exact ih _ _ _ (sync_step wallet t s op h1) (syncR_step wallet u s op h2)
+
+/-- without torn faults since the last load, memory = storage exactly (per wallet, before any
+    restart); after a restart always (`restart_exact`). -/
+theorem memory_equals_storage (wallet : Bool) (ops : List Op)
+    (h1 : tornOf ops = []) (h2 : tornSaveOf ops = []) (w : Nat) :
+    known (finalState wallet {} ops).cache w = hasDir (finalState wallet {} ops).disk w := by
+  obtain ⟨a, b⟩ := memory_refines_storage wallet ops
+  rw [h1] at a; rw [h2] at b
+  rw [Bool.eq_iff_iff]
+  exact ⟨fun h => a w h (by simp), fun h => b w h (by simp)⟩
+
+/-- after a restart the lookups by public key hash and by wallet ID (any map iteration order,
+    collision-free derived keys) find exactly the wallets that have files on storage. -/
+theorem lookups_after_restart (h : Nat → Nat) (hinj : ∀ a b, h a = h b → a = b) (s : St)
+    (order : Cache) (hperm : ∀ e, e ∈ order ↔ e ∈ (restartSt s).cache) (w : Nat) :
+    lookupBy h order (h w) = if hasDir s.disk w then some w else none := by
+  rw [lookups_agree h hinj _ order hperm w, (restart_exact s w).2]
+
 /-! ## the monitor accepts every trace of the model -/
 
 theorem sameSet_refl (l : List (Nat × Nat)) : sameSet l l = true := by
@@ -431,9 +618,27 @@ theorem step_arch_err_cache (s : St) (w : Nat) (f : Fault)
     · cases f <;> simp [step, hk, hd] at h ⊢ <;> rfl
     · cases f <;> simp [step, hk, hd] at h ⊢
 
-theorem stepOk_model (wallet : Bool) (s : St) (op : Op) :
-    stepOk wallet op (step wallet s op).2 s.cache (step wallet s op).1.cache none = true ∧
-    stepOk wallet op (step wallet s op).2 s.cache (step wallet s op).1.cache
+theorem known_of_signersOf {c : Cache} {w : Nat} (h : (signersOf c w).isEmpty = false) :
+    known c w = true := by
+  unfold signersOf at h
+  cases hf : c.find? (·.1 == w) with
+  | none => simp [hf] at h
+  | some e =>
+    simp only [known, List.any_eq_true]
+    exact ⟨e, List.mem_of_find?_eq_some hf, by have := List.find?_some hf; exact this⟩
+
+theorem arch_plain (wallet : Bool) (s : St) (w : Nat) (hk : known s.cache w = true)
+    (hd : hasDir s.disk w = true) :
+    (step wallet s (.arch w .none)).2 = .ok ∧ signersOf (step wallet s (.arch w .none)).1.cache w = [] := by
+  have e : (step wallet s (.arch w .none)) =
+      ({ moveDir s w with cache := (moveDir s w).cache.filter (·.1 != w) }, .ok) := by
+    simp [step, hk, hd]
+  rw [e]
+  exact ⟨rfl, by simp [signersOf_filter_ne]⟩
+
+theorem stepOk_model (wallet : Bool) (t : List Nat) (s : St) (hs : Sync t s) (op : Op) :
+    stepOk wallet t op (step wallet s op).2 s.cache (step wallet s op).1.cache none = true ∧
+    stepOk wallet t op (step wallet s op).2 s.cache (step wallet s op).1.cache
       (some (restartSt (step wallet s op).1).cache) = true := by
   cases op
   case restart => simp [stepOk, step, restartSt, snapEq, sameSet_refl]
@@ -450,31 +655,48 @@ theorem stepOk_model (wallet : Bool) (s : St) (op : Op) :
         have h2 : ¬ (step wallet s (.reg w i sh f)).2 = .eId := fun x => he (Or.inr x)
         simp [stepOk, h, h1, h2]
   case arch w f =>
+    -- first conjunct of the rule: a plain archival of a known, non-torn wallet
+    have first : (if f == Fault.none && !(snapSigners s.cache w).isEmpty && !t.contains w then
+        (snapSigners (step wallet s (.arch w f)).1.cache w).isEmpty &&
+          (!wallet || (step wallet s (.arch w f)).2 == .ok) else true) = true := by
+      split
+      · rename_i hc
+        simp only [Bool.and_eq_true, Bool.not_eq_true', beq_iff_eq, List.contains_eq_mem,
+          decide_eq_false_iff_not] at hc
+        obtain ⟨⟨hf, hne⟩, hnt⟩ := hc
+        subst hf
+        have hk := known_of_signersOf (by simpa [snapSigners_eq] using hne)
+        obtain ⟨a, b⟩ := arch_plain wallet s w hk (hs w hk hnt)
+        simp [snapSigners_eq, a, b]
+      · rfl
     cases wallet
-    · simp [stepOk]
+    · simp only [stepOk, first, Bool.true_and, Bool.false_and]; simp
     · by_cases h : (step true s (.arch w f)).2 = .ok
       · obtain ⟨_, h2, h3, _⟩ := archive_removes s w f h
-        simp only [stepOk, h, snapSigners_eq]
+        simp only [stepOk, first, h, snapSigners_eq]
         simp [h2, h3]
       · by_cases he : (step true s (.arch w f)).2 = .eArch ∨ (step true s (.arch w f)).2 = .eNf
         · have hc := step_arch_err_cache s w f he
-          simp only [stepOk, hc, sameSet_refl]
+          simp only [stepOk, first, Bool.true_and]
+          simp only [hc, sameSet_refl]
           rcases he with he | he <;> simp [he]
         · have h1 : ¬ (step true s (.arch w f)).2 = .eArch := fun x => he (Or.inl x)
           have h2 : ¬ (step true s (.arch w f)).2 = .eNf := fun x => he (Or.inr x)
-          simp [stepOk, h, h1, h2]
+          simp only [stepOk, first, Bool.true_and]
+          simp [h, h1, h2]
 
 /-- `holdsTrace` (the monitor) accepts what the model does on every history, for both registries. -/
-theorem holds_model (wallet : Bool) (ops : List Op) (s : St) :
-    holdsTrace wallet s.cache ops (run wallet s ops) = true := by
-  induction ops generalizing s with
+theorem holds_model_from (wallet : Bool) (ops : List Op) (t : List Nat) (s : St) (hs : Sync t s) :
+    holdsTrace wallet t s.cache ops (run wallet s ops) = true := by
+  induction ops generalizing s t with
   | nil => simp [run, holdsTrace]
   | cons op ops ih =>
-    obtain ⟨h1, h2⟩ := stepOk_model wallet s op
+    obtain ⟨h1, h2⟩ := stepOk_model wallet t s hs op
+    have hs' := sync_step wallet t s op hs
     cases ops with
     | nil => simp [run, holdsTrace, h1]
     | cons op2 ops2 =>
-      have ih' := ih (step wallet s op).1
+      have ih' := ih (tornStep t op) (step wallet s op).1 hs'
       cases op2
       case restart =>
         simp only [run, holdsTrace, Bool.and_eq_true] at ih' ⊢
@@ -483,6 +705,10 @@ theorem holds_model (wallet : Bool) (ops : List Op) (s : St) :
         simp only [run, holdsTrace, Bool.and_eq_true] at ih' ⊢
         exact ⟨h1, ih'⟩
 
+theorem holds_model (wallet : Bool) (ops : List Op) :
+    holdsTrace wallet [] [] ops (run wallet {} ops) = true :=
+  holds_model_from wallet ops [] {} (fun w hk _ => by simp [known] at hk)
+
 /-! non-vacuity -/
 example : (run true {} [.reg 1 1 0 .none, .reg 1 1 3 .none, .reg 2 2 1 .failAfter, .restart,
     .arch 1 .failAfter, .arch 1 .none, .restart]).map (·.2) =
@@ -490,11 +716,13 @@ example : (run true {} [.reg 1 1 0 .none, .reg 1 1 3 .none, .reg 2 2 1 .failAfte
      [(1, [(1, 3)]), (2, [(2, 1)])], [(1, [(1, 3)]), (2, [(2, 1)])], [(2, [(2, 1)])]] := by decide
 /-- the monitor rejects: a registered signer lost by the restart, key material changed by the
     restart, an archived wallet that comes back. -/
-example : holdsTrace true [] [.reg 1 1 0 .none, .restart] [(.ok, [(1, [(1, 0)])]), (.restarted, [])] = false := by decide
-example : holdsTrace true [] [.reg 1 1 0 .none, .restart] [(.ok, [(1, [(1, 0)])]), (.restarted, [(1, [(1, 2)])])] = false := by decide
-example : holdsTrace true [] [.arch 1 .none, .restart] [(.ok, []), (.restarted, [(1, [(1, 0)])])] = false := by decide
-example : holdsTrace true [(1, [(1, 0)])] [.arch 1 .failBefore] [(.eArch, [])] = false := by decide
+example : holdsTrace true [] [] [.reg 1 1 0 .none, .restart] [(.ok, [(1, [(1, 0)])]), (.restarted, [])] = false := by decide
+example : holdsTrace true [] [] [.reg 1 1 0 .none, .restart] [(.ok, [(1, [(1, 0)])]), (.restarted, [(1, [(1, 2)])])] = false := by decide
+example : holdsTrace true [] [] [.arch 1 .none, .restart] [(.ok, []), (.restarted, [(1, [(1, 0)])])] = false := by decide
+example : holdsTrace true [] [(1, [(1, 0)])] [.arch 1 .failBefore] [(.eArch, [])] = false := by decide
+/-- …a plain archival that leaves the wallet known (wrong directory key), … -/
+example : holdsTrace false [] [(1, [(1, 0)])] [.arch 1 .none] [(.ok, [(1, [(1, 0)])])] = false := by decide
 /-- …and a signer that entered memory although its registration reported a storage error. -/
-example : holdsTrace true [] [.reg 1 1 0 .failBefore] [(.eSave, [(1, [(1, 0)])])] = false := by decide
+example : holdsTrace true [] [] [.reg 1 1 0 .failBefore] [(.eSave, [(1, [(1, 0)])])] = false := by decide
 
 end KeepVerif.C38
